@@ -100,13 +100,33 @@ CLAIMS['C03'] = dict(
          "readers, Timestamp arithmetic), decreases clauses on every loop under contract, and the allocation precondition of reserve().",
     note=COMMON_NOTE + "Partial: CLI tools, text renderers, skip_item, CdnsBlockRead and the record accessors are not under contract.",
     technique="CBMC dfcc contracts + generated safety checks on lowered read-side bodies", design_ref="6/C03, 12.4")
+CLAIMS['C14'] = dict(
+    text="Protocol-conformance proof under the zlib/liblzma manuals (A10): write() offers every input byte to the compressor exactly once, every byte the "
+         "compressor produced is forwarded to the inner writer exactly once from the start of the scratch buffer, close() finishes the stream "
+         "(FINISH until STREAM_END, then release) only if one is open, rotate_output rotates the inner writer only with a finished, fully forwarded stream "
+         "and opens one new stream (gzip: write_gzip/write/close/rotate_output; xz: write_lzma/write/close). Chunks <= 512 KiB; larger chunks are a known finding.",
+    note=COMMON_NOTE + "Decompress(output) == input rests on zlib/liblzma themselves; progress/termination of the compressor assumed; file-name suffixes not checked; xz open/rotate not lowered.",
+    technique="CBMC dfcc function + loop contracts against ghost models of deflate / lzma_code and the inner writer", design_ref="6/C14, 12.2")
+CLAIMS['C15'] = dict(
+    text="Writer<std::string>::close: the rename to the final name is issued only after flush and close of the stream, at most once per open, and not at "
+         "all when no file is open (ordering automaton over ofstream/rename events, failures nondeterministic).",
+    note=COMMON_NOTE + "Partial: the destructor chain (exporter -> encoder -> compressor -> file writer) and the '.part' path text are not under contract; crash points are collapsed to this happens-before statement under POSIX rename atomicity.",
+    technique="CBMC dfcc contract on the lowered template specialisation against a ghost event automaton", design_ref="6/C15, 12.2")
+CLAIMS['C16'] = dict(
+    text="Writer<int>::write returns normally iff the OS accepted every byte (short or failed ::write raises); on an output failure write_block() leaves "
+         "the buffered records untouched and rotate_output to a healthy output re-establishes the exporter invariant (exp.* units with a failing sink); "
+         "'rotate_output never returns normally for an output that lost bytes' is checked on GzipCborOutputWriter::rotate_output and is a KNOWN FINDING.",
+    note=COMMON_NOTE + "Partial: Writer<std::string>::write/close error reporting and the xz rotate are not under contract (same swallow pattern).",
+    technique="CBMC dfcc contracts with nondeterministic OS/sink failures (fault = nondeterminism)", design_ref="6/C16, 12.2")
+CLAIMS['C20'] = dict(category='other',
+    text="First clause only ('keeps no shared mutable state'): exhaustive scan of clang's AST for every declaration with static storage duration in "
+         "namespace CDNS (namespace scope, static members, static locals): all are const/constexpr; the frames of every function under contract in the "
+         "other checks are limited to their arguments and ghost state. Schedules are not examined.",
+    note="Supporting static fact, not a proof of the concurrency statement; libc/iostream/zlib/lzma assumed thread-compatible.",
+    technique="clang AST declaration scan + dfcc assigns clauses", design_ref="6/C20")
 NA.update({
- 'C14': "compression writers (VLA scratch buffers, zlib/lzma stream protocol) were not brought under contract in this round; no check decides it",
- 'C15': "needs an ordering contract over ofstream/rename/destructor chains (Writer<std::string>, template specialisations): not built in this round",
- 'C16': "only the exporter part (block untouched on failure) is covered inside C12/C13 units; the writers' error reporting is not under contract",
  'C18': "property of five main() bodies (getopt, iostream, several files): no function-level contract within reach states it (DESIGN section 8)",
  'C19': "implicitly generated copy operations of BlockTable over libstdc++ containers: no source text to put a contract on (DESIGN section 8)",
- 'C20': "schedules are outside this technique family (no thread support); the static-declaration scan of DESIGN 6/C20 was not built",
 })
 
 ALL = ['C%02d' % i for i in range(1, 21)]
